@@ -4,7 +4,7 @@
 namespace yaclib::detail::fiber {
 
 void RecursiveMutex::lock() {
-  if (_occupied_count != 0 && _owner_id != fault::Scheduler::GetId()) {
+  while (_occupied_count != 0 && _owner_id != fault::Scheduler::GetId()) {
     _queue.Wait(NoTimeoutTag{});
   }
   LockHelper();
